@@ -40,7 +40,8 @@ def gen_case(rnd, tier: str, i: Any) -> Dict[str, Any]:
         tr = gen_sim.gen_trace(rnd, **p)
         gen_sim.drop_events(rnd, tr, p_launch=rnd.choice([0, 0.1, 0.3]), p_kernel=rnd.choice([0, 0.1, 0.3]), p_sync=rnd.choice([0, 0.2]))
         files[f"rank{r}.json"] = tr
-    return {"files": files, "cfg": {"mode": rnd.choice(["parse", "load"]), "mp": rnd.random() < 0.3, "inc_last": rnd.random() < 0.5}}
+    return {"files": files, "cfg": {"mode": rnd.choice(["parse", "load"]), "mp": rnd.random() < 0.3, "inc_last": rnd.random() < 0.5,
+                                    "parser": rnd.choice(drv.PARSER_VARIANTS)}}
 
 
 def fixed_cases(tier: str):
@@ -62,7 +63,8 @@ def run_case(case: Dict[str, Any], ctx: Any) -> core.CaseResult:
     d = ctx.scratch.new("c02")
     try:
         core.write_trace_files(d, case["files"])
-        t = drv.new_trace(d)
+        t = drv.new_trace(d, parser=cfg.get("parser"))
+        res.counters[f"parser_{cfg.get('parser', 'default')}"] += 1
         if cfg["mode"] == "parse":
             ok, _ = drv.guard(res, "parse_traces", t.parse_traces, use_multiprocessing=cfg["mp"])
         else:
